@@ -101,7 +101,7 @@ fn f32_sweep<F: Fn(f64) -> bool + Sync>(run: &Run, lo: f32, hi: f32, stride: u32
 }
 
 pub fn run(run: &Run) {
-    run.rule("gamma: every f32-representable argument in (-170,171.6) outside |x-k|<2^-10 for the poles k ≤ -1 and down to the smallest subnormal f32 (and f64 decades to 1e-307) next to the pole at 0 (thorough; every 16th with a seed-chosen offset in quick) plus integers, half-integers and ±8 f64-ulps around them; beta on a 12x12 parameter lattice; digamma on all integers ≤ 1e4 (harmonic numbers), a geometric lattice to 1e6 and an f32 sweep of [1e-3,64]; erf on every f32 in [-6,6] (strided quick) and a lattice to ±40; identities on adjacent points; every argument is a distinct non-trivial case");
+    run.rule("gamma: every f32-representable argument in (-170,171.6) outside |x-k|<2^-10 for the poles k ≤ -1 and down to the smallest subnormal f32 (and f64 decades to 1e-307) next to the pole at 0 (thorough; every 16th with a seed-chosen offset in quick) plus integers, half-integers and ±8 f64-ulps around them; beta on a 12x12 parameter lattice; digamma on all integers ≤ 1e4 (harmonic numbers), a geometric lattice to 1e6 and an f32 sweep of [1e-3,64]; erf on every f32 in [-6,6] (strided quick) and a lattice to ±40; identities on adjacent points; every ordered pair of calls over 24-element argument sets (purity: no dependence on the previous call); every argument is a distinct non-trivial case");
     let stride: u32 = if run.thorough() { 1 } else { 16 };
     let offset: u32 = (run.seed % stride as u64) as u32;
     run.bound("f32 stride", format!("{} (offset {})", stride, offset));
@@ -216,6 +216,56 @@ pub fn run(run: &Run) {
             }
         }
     });
+    // ---- values must not depend on what was evaluated before (the functions are pure): every ordered
+    // pair of calls over small argument sets that contain diagonal, doubled, swapped and
+    // bit-pattern-related arguments, each second call judged against the reference
+    {
+        let bp: Vec<(f64, f64)> = vec![
+            (1.0, 1.0), (2.0, 2.0), (0.5, 0.5), (1.25, 1.25), (7.0, 7.0), (2.0, 3.0), (4.0, 6.0), (1.0, 1.5), (3.0, 2.0), (1.0, 2.0), (4.0, 0.5), (0.5, 4.0),
+            (8.0, 12.0), (0.25, 0.375), (10.0, 0.1), (0.1, 10.0), (40.0, 40.0), (63.0, 1e-3), (2.5, 2.5), (5.0, 5.0), (3.0, 3.0), (1.5, 1.0), (6.0, 4.0), (16.0, 24.0),
+        ];
+        let bref = |a: f64, b: f64| (DD::new(c_tgamma(a)) * DD::new(c_tgamma(b)) / DD::new(c_tgamma(a + b))).f();
+        for &(a1, b1) in &bp {
+            for &(a2, b2) in &bp {
+                run.case();
+                run.trs(2);
+                run.ok();
+                run.nontrivial(1);
+                let _ = beta(a1, b1);
+                let got = beta(a2, b2);
+                let want = bref(a2, b2);
+                if !(((got - want) / want).abs() <= 1e-12) {
+                    run.violate("beta/depends-on-previous-call", || format!("beta({}, {}) evaluated right after beta({}, {}) = {:e}, want {:e}", a2, b2, a1, b1, got, want));
+                } else {
+                    run.regime("call-pairs");
+                }
+            }
+        }
+        let gx: Vec<f64> = vec![0.5, 1.0, 1.5, 2.0, 3.0, 4.0, 6.0, 8.0, 0.25, 0.75, 10.5, 21.0, -0.5, -1.5, -2.5, 1e-3, 2e-3, 100.0, 50.0, 150.0, 75.0, 1.0000000000000002, 3.5, 7.0];
+        for &x1 in &gx {
+            for &x2 in &gx {
+                run.case();
+                run.trs(6);
+                run.ok();
+                let _ = (gamma(x1), if x1 > 0.0 { digamma(x1) } else { 0.0 }, erf(x1));
+                let (g, e) = (gamma(x2), erf(x2));
+                let wg = c_tgamma(x2);
+                if !(((g - wg) / wg).abs() <= 1e-13 * scale(x2)) {
+                    run.violate("gamma/depends-on-previous-call", || format!("gamma({}) evaluated right after gamma({}) = {:e}, want {:e}", x2, x1, g, wg));
+                }
+                if !((e - c_erf(x2)).abs() <= 1.5e-7) {
+                    run.violate("erf/depends-on-previous-call", || format!("erf({}) evaluated right after erf({}) = {:e}, want {:e}", x2, x1, e, c_erf(x2)));
+                }
+                if x2 > 0.0 {
+                    let d = digamma(x2);
+                    let wd = digamma_ref(x2);
+                    if !((d - wd).abs() <= 1e-10 * wd.abs().max(1.0)) {
+                        run.violate("digamma/depends-on-previous-call", || format!("digamma({}) evaluated right after digamma({}) = {:e}, want {:e}", x2, x1, d, wd));
+                    }
+                }
+            }
+        }
+    }
     // ---- digamma -----------------------------------------------------------------------------
     let euler = 0.577_215_664_901_532_9_f64;
     let mut h = DD::ZERO;
